@@ -26,6 +26,10 @@ type Future struct {
 	cancel   chan struct{}
 	mu       sync.RWMutex
 	resolved bool // Double-resolve protection
+
+	// onSettle holds the callbacks registered with whenSettled. They run once,
+	// in registration order, inside the operation that settles the Future.
+	onSettle []func(value interface{}, err error)
 }
 
 // NewFuture creates a new pending Future
@@ -51,6 +55,7 @@ func (f *Future) Resolve(value interface{}) {
 	f.state = FutureResolved
 	f.value = value
 	close(f.done)
+	f.runSettled()
 }
 
 // Reject completes the Future with an error.
@@ -67,6 +72,7 @@ func (f *Future) Reject(err error) {
 	f.state = FutureRejected
 	f.err = err
 	close(f.done)
+	f.runSettled()
 }
 
 // Await blocks until the Future completes and returns the value or error.
@@ -121,6 +127,34 @@ func (f *Future) Cancel() {
 	f.state = FutureRejected
 	f.err = fmt.Errorf("future cancelled")
 	close(f.done)
+	f.runSettled()
+}
+
+// runSettled runs the callbacks registered with whenSettled. The caller holds
+// f.mu and has just settled the Future, so every callback has run before any
+// other operation can observe the Future as settled.
+func (f *Future) runSettled() {
+	callbacks := f.onSettle
+	f.onSettle = nil
+	for _, cb := range callbacks {
+		cb(f.value, f.err)
+	}
+}
+
+// whenSettled calls fn with the Future's outcome: at once if the Future has
+// already settled, otherwise from the operation that settles it. Race and Any
+// use it so that the input that settles first is also the first one they see;
+// fn must not call back into f.
+func (f *Future) whenSettled(fn func(value interface{}, err error)) {
+	f.mu.Lock()
+	if !f.resolved {
+		f.onSettle = append(f.onSettle, fn)
+		f.mu.Unlock()
+		return
+	}
+	value, err := f.value, f.err
+	f.mu.Unlock()
+	fn(value, err)
 }
 
 // Cancelled returns a channel that is closed when the Future is cancelled.
@@ -273,14 +307,13 @@ func Race(futures ...*Future) *Future {
 	result := NewFuture()
 
 	for _, f := range futures {
-		go func(future *Future) {
-			value, err := future.Await()
+		f.whenSettled(func(value interface{}, err error) {
 			if err != nil {
 				result.Reject(err)
 			} else {
 				result.Resolve(value)
 			}
-		}(f)
+		})
 	}
 
 	// Cancel losing futures once the race is decided
@@ -315,10 +348,9 @@ func Any(futures ...*Future) *Future {
 	wg.Add(len(futures))
 
 	for i, f := range futures {
-		go func(index int, future *Future) {
+		index := i
+		f.whenSettled(func(value interface{}, err error) {
 			defer wg.Done()
-
-			value, err := future.Await()
 
 			mu.Lock()
 			defer mu.Unlock()
@@ -335,7 +367,7 @@ func Any(futures ...*Future) *Future {
 				// First successful resolution wins
 				result.Resolve(value)
 			}
-		}(i, f)
+		})
 	}
 
 	return result
